@@ -189,7 +189,10 @@ func runCheck(prop, tier, repo string, seed int, overlay map[string][]byte, repo
 	for _, o := range res.guardsFail {
 		res.violations = append(res.violations, o)
 	}
-	for _, o := range res.violations {
+	for i, o := range res.violations {
+		if i < 8 && os.Getenv("GVC_NO_REPLAY") == "" {
+			replayObligation(o, eng, repo)
+		}
 		path := writeReplay(prop, o, eng)
 		suffix := ""
 		if !o.replayed {
